@@ -85,4 +85,25 @@ example : printText Gen.table Gen.ladder Gen.symbolsC false exampleAnn
     parseText Gen.table Gen.ladder Gen.symbolsC (printText Gen.table Gen.ladder Gen.symbolsC false exampleAnn) = some exampleAnn := by
   decide +kernel
 
+/-- Terms WITH the interval literal `{m..n}` (written without blanks or brackets around the two bounds, whatever
+they are): lexing and parsing the printed text gives back the skeleton — the instance of `parse_print_text`
+for the constructor `Skel.interval`.  (Set literals, set comprehension, function update and list literals
+are not in `Skel`.) -/
+theorem parse_print_literals (uni : Bool) (a b : Skel)
+    (hwa : a.WF Gen.table Gen.ladder) (hna : a.NamesOK Gen.symbolsC)
+    (hwb : b.WF Gen.table Gen.ladder) (hnb : b.NamesOK Gen.symbolsC) :
+    parseText Gen.table Gen.ladder Gen.symbolsC (printText Gen.table Gen.ladder Gen.symbolsC uni (.interval a b))
+      = some (.interval a b) :=
+  parse_print_text uni (.interval a b) ⟨hwa, hwb⟩ ⟨hna, hnb⟩
+
+/-- `f ({if m = n then 1 else 2..n + 1})`: the argument is bracketed, the bounds are not -/
+def exampleInterval : Skel :=
+  .app (.atom [102]) (.interval (.ite (.bin 0 (.atom [109]) (.atom [110])) (.atom [49]) (.atom [50])) (.bin 6 (.atom [110]) (.atom [49])))
+
+example : printText Gen.table Gen.ladder Gen.symbolsC false exampleInterval
+      = [102, 32, 40, 123, 105, 102, 32, 109, 32, 61, 32, 110, 32, 116, 104, 101, 110, 32, 49, 32, 101, 108, 115, 101, 32, 50,
+         46, 46, 110, 32, 43, 32, 49, 125, 41] ∧
+    parseText Gen.table Gen.ladder Gen.symbolsC (printText Gen.table Gen.ladder Gen.symbolsC false exampleInterval) = some exampleInterval := by
+  decide +kernel
+
 end Holpy.C07
